@@ -92,18 +92,24 @@ def rule_mergeguard(ctx, classes=SKETCH_CLASSES):
                 continue
         else:
             ctx.ob("guard-first", m, site, "kernel call in %s" % m.qualname, "merge() reaches its merge kernel", True)
+        # a guard evaluated by a loop the normaliser could not unroll, or through getattr with a computed name, is not read: a
+        # comparison that was not found there is not thereby missing
+        unread_guard = any(isinstance(n, (ast.While, ast.For)) for n in walk_no_nested(m.node)) or \
+            any(isinstance(n, ast.Call) and dotted(n.func) == "getattr" and len(n.args) >= 2 and not isinstance(n.args[1], ast.Constant) for n in walk_no_nested(m.node))
         for a in req:
             res = []
             for k in kcalls:
                 okk = a in known_equal(k)
-                res.append((okk, "self.%s == %s.%s was decided on the path" % (a, other, a) if okk else
-                            "`%s` is not compared on a path that reaches the kernel: incompatible sketches merge silently" % a, fact_strs(k)))
+                res.append(((None if unread_guard and not okk else okk), "self.%s == %s.%s was decided on the path" % (a, other, a) if okk else
+                            "`%s` is not compared on a path that reaches the kernel: incompatible sketches merge silently" % a
+                            + (" (the guard runs in a loop / through getattr the analysis does not read)" if unread_guard else ""), fact_strs(k)))
             agg(ctx, "guard-set", m, site, "self.%s != %s.%s" % (a, other, a), "sketches differing in `%s` are refused" % a, res)
         # ---- guard-set (completeness): a refusal happens only because a required parameter differs
         res, compared = [], set()
         for r in raises:
             ds = [cc for cc in decisions(r) if not all(_attr_pair(c, other) for c in conjuncts(cc))]
             bad = None
+            unread_hit = False
             if not ds:
                 bad = "raises although every compared parameter agrees"
             for cc in ds:
@@ -113,12 +119,14 @@ def rule_mergeguard(ctx, classes=SKETCH_CLASSES):
                     d = differing(c)
                     if d is None:
                         bad = "unrecognised guard term %s" % show_cond(c)
+                        if unread_guard:
+                            unread_hit = True
                     else:
                         compared.update(d)
                         extra = [x for x in d if x not in req and x not in DERIVED_OK]
                         if extra:
                             bad = "extra comparison(s) %s refuse compatible sketches" % extra
-            res.append((bad is None, bad or "refused because a required parameter differs", fact_strs(r)))
+            res.append(((None if (bad is not None and unread_hit) else bad is None), bad or "refused because a required parameter differs", fact_strs(r)))
         for k in kcalls:
             compared |= known_equal(k)
         agg(ctx, "guard-set", m, raises[0].node if raises else m.node, "guard of %s compares %s" % (m.qualname, sorted(compared)),
@@ -194,6 +202,12 @@ def _effectful_call(ev):
     """A call to something that is not a known-pure builtin/constructor (used on refusal paths only)."""
     name = ev.name or ""
     last = name.split(".")[-1]
+    nd = getattr(ev, "node", None)
+    # a method of a string literal (`" | ".join(names)`, `"...{}".format(x)`) builds a message
+    if isinstance(nd, ast.Call) and isinstance(nd.func, ast.Attribute) and isinstance(nd.func.value, ast.Constant) and isinstance(nd.func.value.value, str):
+        return False
+    if name in ("tuple", "list", "sorted", "set", "frozenset", "dict", "zip", "enumerate", "range", "reversed", "sum"):
+        return False
     if last in ("TypeError", "ValueError", "str", "repr", "format", "isinstance", "type", "len", "int", "float", "bool", "getattr", "hasattr",
                 "uint8", "uint16", "uint32", "uint64", "int64", "float64", "min", "max", "abs", "all", "any", "array_equal"):
         return False
@@ -293,6 +307,11 @@ def parse_loader(F, meth):
             li.args_name = n.targets[0].id
         if isinstance(n, ast.Call) and dotted(n.func) in ("np.copyto", "numpy.copyto") and len(n.args) >= 2:
             dst, srcn = n.args[0], n.args[1]
+            if isinstance(srcn, ast.Name):
+                # `tmp = npz["member"]` read into a local first (the only store to `tmp`)
+                defs_ = [a_ for a_ in walk_no_nested(meth.node) if isinstance(a_, ast.Assign) and any(isinstance(t_, ast.Name) and t_.id == srcn.id for t_ in a_.targets)]
+                if len(defs_) == 1 and len(defs_[0].targets) == 1 and isinstance(defs_[0].value, ast.Subscript):
+                    srcn = defs_[0].value
             if isinstance(dst, ast.Attribute) and isinstance(dst.value, ast.Name) and isinstance(srcn, ast.Subscript) \
                     and isinstance(srcn.value, ast.Name) and srcn.value.id == li.npz and isinstance(srcn.slice, ast.Constant):
                 li.copies.append((dst.attr, srcn.slice.value, n, dst.value.id))
@@ -303,6 +322,23 @@ def parse_loader(F, meth):
         if isinstance(n, ast.Return):
             li.returns.append(n)
     return li
+
+
+def _unread_restores(load, li):
+    """The loader copies into a destination that is not `<obj>.<attr>` (a dict of the object's attributes, getattr, a loop variable),
+    or hands the open archive to something other than numpy / the constructor: tables may be restored where parse_loader does not look."""
+    parsed = {id(c[2]) for c in li.copies}
+    for n in walk_no_nested(load.node):
+        if not isinstance(n, ast.Call):
+            continue
+        d = dotted(n.func) or ""
+        if d in ("np.copyto", "numpy.copyto") and id(n) not in parsed:
+            return True
+        if d.startswith(("np.", "numpy.")) or n is li.ctor_call:
+            continue
+        if any(isinstance(a_, ast.Name) and a_.id == li.npz for a_ in list(n.args) + [k.value for k in n.keywords]):
+            return True
+    return False
 
 
 def rule_persist(ctx, classes=SKETCH_CLASSES):
@@ -342,9 +378,12 @@ def rule_persist(ctx, classes=SKETCH_CLASSES):
                 continue
             cp = [c for c in li.copies if c[0] == a and c[3] == li.obj]
             okr = len(cp) == 1 and cp[0][1] == names[0]
+            if not cp and _unread_restores(load, li):
+                okr = None          # the restoring is done somewhere this rule does not read: not found != not done
             ctx.ob("persist-table", load, cp[0][2] if cp else li.ctor_call, "np.copyto(%s.%s, %s[%r])" % (li.obj, a, li.npz, names[0]),
                    "table `%s` is restored by load() from the member save() wrote it to" % a, okr,
-                   "" if okr else ("load() never restores %s.%s" % (li.obj, a) if not cp else "restored from member %r but saved as %r" % (cp[0][1], names[0])))
+                   "" if okr else ("the loader restores tables through a helper / a computed destination the analysis does not read" if okr is None else
+                                   "load() never restores %s.%s" % (li.obj, a) if not cp else "restored from member %r but saved as %r" % (cp[0][1], names[0])))
         # names read must have been written
         for name, node in li.reads:
             okk = name in written
@@ -354,8 +393,51 @@ def rule_persist(ctx, classes=SKETCH_CLASSES):
         for a, name, node, obj in li.copies:
             inside = is_inside(load.node, node, li.with_node)
             ctx.ob("persist-table", load, node, "copy of %r inside `with`" % name, "members are read while the archive is open", inside)
+        # every table is restored on every path that hands the object back: the copies are unconditional statements and no return
+        # precedes one of them
+        for a, name, node, obj in li.copies:
+            def arms_of(x):
+                # [(conditional statement, arm index)] enclosing x inside the loader
+                out_ = []
+                for c_ in walk_no_nested(load.node):
+                    if isinstance(c_, (ast.If, ast.For, ast.While, ast.Try)) and c_ is not x:
+                        blocks = [c_.body, c_.orelse] + ([c_.finalbody] + [h_.body for h_ in c_.handlers] if isinstance(c_, ast.Try) else [])
+                        for ai, blk in enumerate(blocks):
+                            if any(y is x for st_ in blk for y in ast.walk(st_)):
+                                out_.append((id(c_), ai, c_))
+                return out_
+            mine = arms_of(node)
+            early = [r for r in li.returns if not comes_before(load.node, node, r)]
+            # a copy under a condition is fine for a return under the same condition (`if dtype matches: build; copy; return obj`)
+            def never_falls(blk):
+                if not blk:
+                    return False
+                last = blk[-1]
+                if isinstance(last, ast.Raise):
+                    return True
+                if isinstance(last, ast.If):
+                    return never_falls(last.body) and never_falls(last.orelse)
+                return False
+            # ... and for a return after the `if` when the other arm cannot fall through (`if ok: build; copy  else: raise`)
+            cond = [c_ for (i_, ai, c_) in mine if isinstance(c_, (ast.For, ast.While)) or
+                    any((i_, ai) not in {(j_, aj) for (j_, aj, _c) in arms_of(r)} and
+                        not (isinstance(c_, ast.If) and ai in (0, 1) and never_falls(c_.orelse if ai == 0 else c_.body) and not is_inside(load.node, r, c_))
+                        for r in li.returns if isinstance(r.value, ast.Name))]
+            okk = not early and (not cond or None)
+            ctx.ob("persist-table", load, early[0] if early else node, "copy of %r on every returning path" % name,
+                   "no path returns the object before table `%s` is restored" % a, okk,
+                   "" if okk else ("`%s` hands the object back before %s is restored" % (unparse(early[0], 40), a) if early else
+                                   "the copy is conditional (inside `%s`): not read" % type(cond[0]).__name__.lower()))
         for r in li.returns:
             okk = isinstance(r.value, ast.Name) and r.value.id == li.obj
+            if not okk and isinstance(r.value, ast.Name):
+                # `out = None; with np.load(f) as z: ...; out = obj` + `return out`: np.load's context manager does not swallow
+                # exceptions, so the statement after the block runs only when the block's last assignment to `out` has
+                vals = [n.value for n in walk_no_nested(load.node) if isinstance(n, ast.Assign) and len(n.targets) == 1
+                        and isinstance(n.targets[0], ast.Name) and n.targets[0].id == r.value.id]
+                real = [v for v in vals if not (isinstance(v, ast.Constant) and v.value is None)]
+                okk = len(real) == 1 and isinstance(real[0], ast.Name) and real[0].id == li.obj and not is_inside(load.node, r, li.with_node) \
+                    and all(is_inside(load.node, n, li.with_node) for n in walk_no_nested(load.node) if isinstance(n, ast.Assign) and n.value is real[0])
             ctx.ob("persist-table", load, r, "return %s" % unparse(r.value), "load returns the object it restored", okk)
         # ---- ctor-args
         ctor = F.ctor(cls)
@@ -1990,11 +2072,19 @@ def _deleg_loops(ctx, F, m, callee, goal, want_dispatch, extra_args=()):
                         return pol
         return None
 
+    # shapes this rule does not read: the elements are pulled by hand (iter/next, a while loop) or the whole job is handed to something
+    # that receives `self` -- then "no delegation loop found" is no verdict
+    unread = any(isinstance(n, ast.While) for n in walk_no_nested(m.node)) or \
+        any(isinstance(n, ast.Call) and (dotted(n.func) in ("iter", "next", "map") or
+                                         any(isinstance(a_, ast.Name) and a_.id == "self" for a_ in n.args)) for n in walk_no_nested(m.node))
     res = []
     rets = [e for e in w.events if e.kind == "ret"]
     for r in rets:
         pre = on_path(w.events, r)
         ls = [x for x in pre if x in starts and any(c.loops and c.loops[0] is x.loop for c in calls)]
+        if not ls and unread and not [c for c in pre if c in calls and not c.loops]:
+            res.append((None, "no `for` loop over the argument on this path, but the method iterates by hand / delegates to a helper: shape not read", fact_strs(r)))
+            continue
         stray = [c for c in pre if c in calls and not c.loops]
         side = dict_side(r)
         if stray:
@@ -2054,7 +2144,8 @@ def _deleg_loops(ctx, F, m, callee, goal, want_dispatch, extra_args=()):
         broken = [n for b_ in x.node.body for n in walk_no_nested(b_) if isinstance(n, (ast.Break, ast.Continue, ast.Return))]
         if broken:
             res.append((False, "the loop can skip or stop before the last element (%s)" % type(broken[0]).__name__.lower(), []))
-    agg(ctx, "deleg", m, starts[0].node if starts else m.node, "%s: loop body" % m.qualname, goal, res or [(False, "no loop delegating to self.%s" % callee, [])])
+    agg(ctx, "deleg", m, starts[0].node if starts else m.node, "%s: loop body" % m.qualname, goal,
+        res or [(None if unread else False, "no loop delegating to self.%s" % callee + (" (the method iterates by hand / delegates to a helper: shape not read)" if unread else ""), [])])
 
 
 def _check_update(ctx, F, cls, m):
@@ -2083,6 +2174,45 @@ def ngram_kernels(F, classes=SKETCH_CLASSES):
     return res
 
 
+def _monotone_break_bound(w, k, lp):
+    """`for i in range(a, b): [pure assignments]; if <i + r > 0>: break; ...` -- a guard that is linear in the loop variable with
+    coefficient +1 stays true once it is true, so the loop body after the guard runs exactly for i in range(a, min(b, R)) with R the
+    first i that satisfies the guard.  Returns (R, break nodes) when every break of the loop is of that form and R <= b is entailed at
+    loop entry; None otherwise."""
+    brs = [e for e in w.events if e.kind == "loopbreak" and getattr(e, "loop", None) is lp]
+    if not brs or lp.kind != "range" or lp.varterm is None or not isinstance(lp.node, ast.For):
+        return None
+    body = lp.node.body
+    R = None
+    for e in brs:
+        # the guarding `if` is a top-level statement of the body, preceded only by assignments without calls (casts aside)
+        guard = e.path[-1][0] if e.path else None         # (the event's own node is the loop statement)
+        if not (isinstance(guard, ast.If) and any(st is guard for st in body)) or guard.orelse or e.path[-1][1] is not True \
+                or not (len(guard.body) == 1 and isinstance(guard.body[0], ast.Break)):
+            return None
+        for st in body[:body.index(guard)]:
+            if not isinstance(st, ast.Assign) or any(isinstance(x, ast.Call) and (dotted(x.func) or "").split(".")[-1] not in
+                                                     ("uint64", "uint32", "int64", "int", "uint8", "uint16") for x in ast.walk(st)):
+                return None
+        ent = [pe for pe in e.path if pe[0] is guard]
+        if not ent:
+            return None
+        c = ent[-1][2]
+        if c[0] != "le" or (len(c) > 2 and c[2]):
+            return None
+        lin = c[1]                     # lin <= 0 on the breaking path
+        if lin.c.get(lp.varterm) != -1:
+            return None
+        r_here = lin + Lin.term(lp.varterm)          # lin = R - i
+        if any(t == lp.varterm for t in r_here.terms()) or (R is not None and r_here != R):
+            return None
+        R = r_here
+    ls = [x for x in w.events if x.kind == "loopstart" and x.loop is lp]
+    if R is None or not ls or not w.P.prove_le0(R - lp.stop, ls[0].facts):
+        return None
+    return R, {id(e.path[-1][0]) for e in brs}
+
+
 def rule_window(ctx, classes=SKETCH_CLASSES):
     F = facts_of(ctx)
     from .rules_arith import walk_kernel
@@ -2101,7 +2231,7 @@ def rule_window(ctx, classes=SKETCH_CLASSES):
         for c in single:
             am = dict(zip(c.callee.params, c.args))
             kv = am.get(keyp) if keyp in am else next((a for a in c.args if isinstance(a, Bytes)), None)
-            okk = isinstance(kv, Bytes) and kv.root == keyp and kv.start == Lin.const(0) and kv.stop is None
+            okk = isinstance(kv, Bytes) and kv.root == keyp and kv.start == Lin.const(0) and (kv.stop is None or kv.stop == L)     # key / key[0:len(key)]
             p = w.P.prove_le0(L - n, c.facts)
             vv = am.get("value")
             okv = vv is None or (isinstance(vv, Num) and vv.lin == Lin.const(1))
@@ -2116,8 +2246,14 @@ def rule_window(ctx, classes=SKETCH_CLASSES):
                 return False
             kind, a_, b_ = w.P.minmax[t]
             return kind == "min" and {a_.key(), b_.key()} == {L.key(), n.key()}
+        def _whole_len(c_, size_):
+            # a window as long as the key, on a path that has established len(key) <= n: the single window of the short-key case
+            return size_ == L and bool(w.P.prove_le0(L - n, c_.facts))
         unified = (not single) and bool(looped) and all(
-            isinstance(kv_, Bytes) and kv_.stop is not None and _min_len_n(kv_.stop - kv_.start)
+            isinstance(kv_, Bytes) and kv_.stop is not None and (_min_len_n(kv_.stop - kv_.start) or _whole_len(c_, kv_.stop - kv_.start)
+                                                                 or (kv_.stop - kv_.start) == n)
+            for c_, kv_ in [(c, next((a for a in c.args if isinstance(a, Bytes)), None)) for c in looped]) and any(
+            isinstance(kv_, Bytes) and kv_.stop is not None and (kv_.stop - kv_.start) != n
             for kv_ in [next((a for a in c.args if isinstance(a, Bytes)), None) for c in looped])
         if not unified:
             agg(ctx, "window", k, single[0].node if single else k.node, "%s: whole-key branch" % k.name,
@@ -2131,15 +2267,18 @@ def rule_window(ctx, classes=SKETCH_CLASSES):
             # windows key[S : S + n] with S = v + c for the loop variable v of `range(s0, e0)`: the first window starts at 0
             # (s0 + c == 0) and the last one at len - n (e0 - 1 + c == len - n); `for i in range(len - n + 1): key[i : i + n]` is c = 0
             size = (kv.stop - kv.start) if isinstance(kv, Bytes) and kv.stop is not None else None
-            ok2 = isinstance(kv, Bytes) and kv.root == keyp and i is not None and size is not None and (size == n or (unified and _min_len_n(size))) \
+            ok2 = isinstance(kv, Bytes) and kv.root == keyp and i is not None and size is not None \
+                and (size == n or (unified and (_min_len_n(size) or _whole_len(c, size)))) \
                 and lp.varterm not in (kv.start - i).terms()
             cshift = (kv.start - i) if ok2 else Lin.const(0)
             wsize = size if ok2 else n
+            mb = _monotone_break_bound(w, k, lp)
+            eff_stop = mb[0] if mb is not None else lp.stop
             ok1 = len(c.loops) == 1 and lp.kind == "range" and lp.step == Lin.const(1) and (lp.start + cshift) == Lin.const(0) \
-                and (lp.stop - 1 + cshift) == L - wsize
+                and (eff_stop - 1 + cshift) == L - wsize
             # the (unsigned) loop bound must not wrap: at loop entry the facts entail  len - size + 1 >= 0
             ls = [x for x in w.events if x.kind == "loopstart" and x.loop is lp]
-            p = bool(ls) and (w.P.prove_le0(-(L - wsize + 1), ls[0].facts) or (unified and ok2))       # min(len, n) <= len
+            p = bool(ls) and (w.P.prove_le0(-(L - wsize + 1), ls[0].facts) or (unified and ok2 and size != n))       # min(len, n) <= len
             vv = am.get("value")
             okv = vv is None or (isinstance(vv, Num) and vv.lin == Lin.const(1))
             okk = ok1 and ok2 and p and okv
@@ -2165,8 +2304,10 @@ def rule_window(ctx, classes=SKETCH_CLASSES):
                        "the windows are passed to %s, which is not the kernel add() calls (%s): they are not added" % (c.callee.name, sorted(x.split("::")[-1] for x in addk)))
         wl = {id(c.loops[0]): c.loops[0] for c in looped}
         for lp in wl.values():
+            mb = _monotone_break_bound(w, k, lp)
             exits = [e for e in w.events if e.kind in ("ret", "loopbreak") and getattr(e, "loops", None) and e.loops[0] is lp
-                     and not (e.kind == "loopbreak" and len(e.loops) > 1 and getattr(e, "loop", None) is not lp)]
+                     and not (e.kind == "loopbreak" and len(e.loops) > 1 and getattr(e, "loop", None) is not lp)
+                     and not (mb is not None and e.kind == "loopbreak" and e.path and id(e.path[-1][0]) in mb[1])]      # a bound written as a break: counted in the range
             okk = not exits
             node = exits[0].node if exits and getattr(exits[0], "node", None) is not None else k.node
             ctx.ob("window", k, node, "%s: exits inside the window loop" % k.name, "the window loop runs to the last window (no return/break inside it)", okk,
